@@ -230,7 +230,59 @@ func arrayOfStruct(al *ssa.Alloc) bool {
 	return isStruct
 }
 
+// checkGeneratedModes (S4-const): the members a packager generates itself -
+// maintainer scripts, control files, metadata - carry the modes the format
+// prescribes; no configuration value (umask, an entry's mode) takes part in
+// them. Decided by provenance of every Mode definition of every tar header
+// that is not a payload entry's.
+func checkGeneratedModes(c *Ctx, r *Report) {
+	pa := newProv(c)
+	n := 0
+	for _, pk := range c.Packagers {
+		if pk.Format == "" || pk.Format == "rpm" {
+			continue
+		}
+		var fns []*ssa.Function
+		for _, fn := range sortedFuncs(c, c.Reach(pk.Package)) {
+			if c.funcPkgPath(fn) == pk.PkgPath {
+				fns = append(fns, fn)
+			}
+		}
+		for _, h := range headerObjects(c, fns) {
+			if h.Kind != "tar" || len(h.Uses) == 0 || h.FromFileInfo {
+				continue
+			}
+			payload := false
+			for _, st := range h.fieldStores("Name") {
+				if pa.Of(st.Val).has("Content.Destination") {
+					payload = true
+				}
+			}
+			if payload {
+				continue
+			}
+			n++
+			var bad []string
+			for _, u := range h.Uses {
+				defs, _ := h.reaching("Mode", u)
+				for _, st := range defs {
+					for _, a := range pa.Of(st.Val).fields() {
+						if strings.HasPrefix(a, "Info.") || strings.HasPrefix(a, "Content.") || strings.HasPrefix(a, "FileInfo.") {
+							bad = append(bad, a)
+						}
+					}
+				}
+			}
+			bad = uniq(bad)
+			r.Check(len(bad) == 0, "S4-const", pk.Format+": mode of generated member "+h.key(c), c.instrPos(h.Create),
+				fmt.Sprintf("the mode of a member the packager generates itself depends on %v: scripts and control files must carry the mode the format prescribes whatever the configuration says", bad))
+		}
+	}
+	r.Floor("S4-const", n, 5)
+}
+
 func checkC09(c *Ctx, r *Report) {
+	checkGeneratedModes(c, r)
 	r.Rules = []string{"S1 slot<->field table per format equals the statement's", "S2 each slot guarded by non-emptiness of its own field", "S3 bytes flow unmodified from the file read to the slot", "S4 mode constants", "S5 rpmpack scriptlet tags (thorough)"}
 	r.Explanation = "Table extraction and field provenance over go/ssa. For every packager the places where a script-path field of the configuration is bound to a slot name are extracted (constant-keyed map updates, struct-literal rows, rpmpack Add* calls) and the resulting (slot, field) relation is compared with the table transcribed from the statement — equality, so a missing, extra or cross-wired slot is a violation and every one of the 15 script fields is accounted for in exactly the formats that own it. Each consumer (the read of the script file) must be dominated by a non-emptiness test of a value with the same script-field provenance (populated iff configured). The bytes that reach the archive writer or the rpmpack slot derive from the file read through conversions only — any other function on that path is a violation. Lifecycle script modes are the stated constants. All subsets of configured scripts are covered because each slot is decided independently of the others."
 	r.Assumptions = []string{
